@@ -98,7 +98,7 @@ Lemma refuted_unfixed :
     get root (KAdf11 FCont (lsym s) q) d = None /\
     get root (KAdf11 FLine (lsym s) q) d = Some (t_val t1) /\ t_val t1 <> t_val t0.
 Proof.
-  exists ["repo"%string], {| sym := "C"; znum := 6 |}, 2,
+  exists ["repo"%string], {| sym := "C"; znum := 6; is_elem := true |}, 2,
          (leaf_ok 1%positive), (leaf_ok 2%positive).
   vm_compute. repeat split; congruence.
 Qed.
